@@ -59,7 +59,8 @@ func (s *Sim) Ready(allowSendErr, allowCan, allowDropErr, allowDecodeErr bool) [
 		if c.Finished || c.th == nil {
 			continue
 		}
-		retC := c.UserCanc || c.Done
+		// the retry loop's context is observed directly (it is the context given to send)
+		retC := c.sendCtx != nil && c.sendCtx.Err() != nil
 		switch c.th.point {
 		case "send":
 			out = append(out, Option{Kind: "sret", ID: id, Outcome: "ok"})
@@ -319,12 +320,39 @@ func (s *Sim) apply(o Option) bool {
 			}
 			return false
 		}
+		// which waiters did the batch reach? Follow the loop of NotifyAcks as the source has it
+		// (what it does at an unknown id, whether it unregisters), then cross-check with the
+		// registrations before / after.
+		reg := map[int64]bool{}
+		for _, id := range before {
+			reg[id] = true
+		}
+		reached := map[int64]bool{}
+		batches := [][]int64{o.IDs}
+		if o.Shape == AckSplit {
+			h := len(o.IDs) / 2
+			batches = [][]int64{o.IDs[:h], o.IDs[h:]}
+		}
+		for _, batch := range batches {
+			for _, id := range batch {
+				if reg[id] {
+					reached[id] = true
+					if s.Src.AckDeletes {
+						reg[id] = false
+					}
+					continue
+				}
+				if s.Src.AckUnknown != "continue" {
+					break
+				}
+			}
+		}
 		for _, id := range o.IDs {
 			c := s.calls[id]
 			if c == nil || !in(before, id) {
 				continue
 			}
-			if in(after, id) {
+			if s.Src.AckDeletes && in(after, id) {
 				// the acknowledgement was received for a pending request but its waiter is still
 				// registered: the ack was lost inside the engine (the request will be re-sent /
 				// treated as unacknowledged at close)
@@ -332,7 +360,7 @@ func (s *Sim) apply(o Option) bool {
 				s.viol("C26", "ack-lost", "NotifyAcks(%v): request %d was waiting for its acknowledgement and still is", o.IDs, id)
 				continue
 			}
-			if !c.Acked {
+			if reached[id] && s.Src.AckCloses && !c.Acked {
 				c.Acked = true
 				s.Stats["ack-hit"]++
 				if len(o.IDs) > 1 {
@@ -392,9 +420,17 @@ func (s *Sim) apply(o Option) bool {
 				break
 			}
 		}
+		if _, _, closed := s.Eng.VerifC24Snapshot(); !closed {
+			s.viol("C26", "close-not-closed", "%s reached wg.Wait without setting the closed flag", o.Kind)
+		}
 		if o.Kind == "fclose" && !s.ReqC {
-			s.ReqC = true
+			// observed, not assumed: threads are released into the close branches only if the
+			// engine's request context really is cancelled
+			s.ReqC = s.Eng.VerifC24ReqCancelled()
 			s.fcloseAt = len(s.Trace)
+			if !s.ReqC {
+				s.viol("C26", "force-close-no-cancel", "ForceClose reached wg.Wait without cancelling the request context")
+			}
 		}
 		s.record(o.Label(), "-")
 	default:
